@@ -1,9 +1,271 @@
-import Ivg.Model.Decoder
-import Ivg.Model.Arc
-import Ivg.Model.MdIcons
+import Ivg.Lemmas.RendererVM
 import Ivg.Gen.Tie
 import Ivg.Obligations
-/-! # Property C04 — theorems (work in progress: tie obligations only so far) -/
+/-!
+# C04 — the Renderer fills each path with the paint the specification's machine prescribes
+
+Property text: "For every instruction sequence the renderer fills each path with exactly the paint the
+specification's virtual machine prescribes: 64 colour and 64 number registers addressed modulo 64 as
+selector minus ADJ, post-increment variants, colour registers initialised from the custom palette and
+number registers and selectors from zero, palette/register/blend colours resolved when stored, and
+level-of-detail bounds tested against the raster height (LOD0 <= H < LOD1) when the path starts. A path
+whose paint is fully transparent, is a non-gradient non-premultiplied colour, is a gradient with
+invalid stops (non-premultiplied colour, offset outside [0,1] or not strictly increasing), or that is
+outside the level-of-detail range causes no rasteriser activity at all, while the machine still leaves
+drawing mode."
+
+The specification's machine is `Ivg.Spec.VM` (written from `/repo/spec/iconvg-spec-v0.md`, independent
+of the Renderer model).  The theorems relate it to `Ivg.Ren.Renderer` (the model of render/render.go,
+tied to the Go code by the differential suite and `Gen.Tie.renderer_fields_tie`), through the
+abstraction `absVM` (registers as functions on `Fin 64`, selectors modulo 64) and `realise` (the
+`image.Image` a prescribed paint becomes).  All statements are generic in the number types
+(`α` = float32, `β` = float64): numbers are only stored and compared.
+-/
 namespace Ivg.Props.C04
+open Ivg Ivg.Ren Ivg.Spec.VM Ivg.Lemmas.RendererVM
+
+variable {α β : Type} [Arith α] [Arith β] [Wide α β]
+
+/-! ## registers -/
+
+/-- Clause "colour registers initialised from the custom palette and number registers and selectors
+    from zero" (and LOD from `0`, `+∞`): after `Reset` the Renderer represents the machine's initial
+    state, whatever it was before. -/
+theorem reset_initialises (z : Renderer α β) (posInf : α) (vb : ViewBox α) (pal : Palette) :
+    absVM (z.reset posInf vb pal) = VM.init posInf pal := abs_reset z posInf vb pal
+
+/-- Clause "addressed modulo 64 as selector minus ADJ": `(sel - adj) & 0x3f` in `uint8` arithmetic is
+    `SEL - ADJ` modulo 64 for every selector byte and every adjustment byte. -/
+theorem register_index (sel adj : UInt8) :
+    (sel - adj).toNat % 64 = (sub ⟨sel.toNat % 64, Nat.mod_lt _ (by decide)⟩ adj).val := sel_index sel adj
+
+/-- Clauses "64 colour and 64 number registers addressed modulo 64 as selector minus ADJ,
+    post-increment variants, … palette/register/blend colours resolved when stored": each of the six
+    styling calls makes no rasteriser call and changes the represented machine state exactly as the
+    specification's instruction does. -/
+theorem styling_refines (arc : ArcFn α β) (posInf : α) (z : Renderer α β) (c : Call α)
+    (hc : isStyling c = true) :
+    (z.step arc posInf c).2 = [] ∧ absVM (z.step arc posInf c).1 = (absVM z).step posInf c :=
+  Lemmas.RendererVM.styling_refines arc posInf z c hc
+example : isStyling (.setCReg 3 false (Color.blendColor 0x40 0x7f 0x85) : Call Num.F32) = true ∧
+    isStyling (.setNReg 0 true (Ex.n 1) : Call Num.F32) = true := ⟨rfl, rfl⟩
+
+/-- … for every Destination call (path calls leave the machine's registers alone). -/
+theorem every_call_refines (arc : ArcFn α β) (posInf : α) (z : Renderer α β) (c : Call α) :
+    absVM (z.step arc posInf c).1 = (absVM z).step posInf c := step_abs arc posInf z c
+
+/-- "resolved when stored": `Color.Resolve` against the Renderer's palette and registers is the
+    specification's resolution (direct colour, palette entry, register value, per-channel blend of two
+    1-byte colours) in the represented state … -/
+theorem colour_resolution (z : Renderer α β) (c : Color) :
+    c.resolve z.palette z.cReg = (absVM z).resolve c := resolve_eq z c
+
+/-- … where the 1-byte colours are the specification's table (125 opaque base-5 colours, three greys,
+    palette entries, register values) — `DecodeColor1` followed by `Resolve`. -/
+theorem colour1_table (z : Renderer α β) (x : UInt8) :
+    (decodeColor1 x).resolve1 z.palette z.cReg = (absVM z).color1 x := color1_eq z x
+
+/-- The selectors the Renderer reports (`CSel()`, `NSel()`) are 6-bit values from `Reset` on, so the
+    abstraction reads them as they are. -/
+theorem selectors_six_bit (arc : ArcFn α β) (posInf : α) (z : Renderer α β) (vb : ViewBox α)
+    (pal : Palette) (p : List (Call α)) :
+    SelBounds (z.run arc posInf (.reset vb pal :: p)).1 :=
+  selBounds_run arc posInf p _ (selBounds_reset z posInf vb pal)
+
+/-! ## the paint chosen when a path starts -/
+
+/-- Clauses "level-of-detail bounds tested against the raster height (LOD0 <= H < LOD1) when the path
+    starts" and "fills each path with exactly the paint … prescribes": `StartPath` follows
+    `VM.paintChoice` evaluated at the height of the Renderer's rectangle.  A prescribed paint ⇒ the
+    rasteriser is reset to the rectangle's size and moved to the start point, the paint is stored, the
+    Renderer is enabled; none ⇒ the Renderer is disabled and makes NO rasteriser call. -/
+theorem startPath_paint (z : Renderer α β) (adj : UInt8) (x y : α) :
+    match (absVM z).paintChoice z.r.dy adj with
+    | some p => z.startPath adj x y =
+        (started z (realise z p) x y, [.reset z.r.dx z.r.dy, .moveTo (z.absX x) (z.absY y)])
+    | none => z.startPath adj x y = ({ z with fill := (choose z adj).1, disabled := true }, []) :=
+  Lemmas.RendererVM.startPath_paint z adj x y
+
+/-- enabled exactly when the machine prescribes a paint -/
+theorem startPath_enabled_iff (z : Renderer α β) (adj : UInt8) (x y : α) :
+    (z.startPath adj x y).1.disabled = false ↔ ((absVM z).paintChoice z.r.dy adj).isSome = true :=
+  Lemmas.RendererVM.startPath_enabled_iff z adj x y
+
+/-- The four reasons of the property text, exhaustively: the machine prescribes no paint iff the
+    height is outside the LOD range, or the colour is premultiplied and fully transparent, or it is a
+    non-gradient non-premultiplied colour, or it is a gradient with invalid stops (or, following the
+    code where the specification is silent, fewer than two stops). -/
+theorem no_paint_causes (m : VM α) (H : Int) (adj : UInt8) :
+    m.paintChoice H adj = none ↔
+      (¬ (m.lod0 ≤ (Arith.ofInt H : α) ∧ (Arith.ofInt H : α) < m.lod1)) ∨
+      (premul (m.cReg (sub m.cSel adj)) ∧ (m.cReg (sub m.cSel adj)).a = 0) ∨
+      (¬ premul (m.cReg (sub m.cSel adj)) ∧ ¬ isGradient (m.cReg (sub m.cSel adj))) ∨
+      (isGradient (m.cReg (sub m.cSel adj)) ∧
+        ¬ (stopsValid (m.gradSpec (m.cReg (sub m.cSel adj))).stops ∧
+           2 ≤ (m.gradSpec (m.cReg (sub m.cSel adj))).stops.length)) :=
+  paintChoice_none_causes m H adj
+
+/-- Gradient paints: `initGradient` succeeds exactly on the gradients whose stops are valid
+    (premultiplied colours, offsets in [0,1], each larger than its predecessor) and that have at least
+    two stops, and then builds the gradient of the specification's registers. -/
+theorem gradient_validity (z : Renderer α β) (g : RGBA) :
+    z.initGradient g =
+      if stopsValid ((absVM z).gradSpec g).stops ∧ 2 ≤ ((absVM z).gradSpec g).stops.length
+      then some (Grad.Gradient.init ((absVM z).gradSpec g).shape ((absVM z).gradSpec g).spread
+        (pix2Grad z ((absVM z).gradSpec g)) (((absVM z).gradSpec g).stops.map stopOf)).1
+      else none := initGradient_spec z g
+
+/-- What a realised gradient paint contains, read back through the Renderer's own accessors
+    (`Gradient.StopOffsets` / `StopColors`): shape and spread of the register value, stop offsets = the
+    `NREG` values (widened to float64), stop colours = the `CREG` values. -/
+theorem gradient_paint (z : Renderer α β) (g : GradSpec α) (h2 : 2 ≤ g.stops.length) :
+    ∃ G : Grad.Gradient β, realise z (.gradient g) = .gradient G ∧ G.shape = g.shape ∧ G.spread = g.spread ∧
+      G.pix2Grad = pix2Grad z g ∧
+      G.stopOffsets = g.stops.map (fun s => (Wide.widen s.1 : β)) ∧ G.stopColors = g.stops.map (·.2) :=
+  realise_gradient z g h2
+example : ∃ g : GradSpec Num.F32, 2 ≤ g.stops.length :=
+  ⟨⟨0, 1, [(Ex.n 0, ⟨0xff, 0, 0, 0xff⟩), (Ex.n 1, ⟨0, 0, 0xff, 0xff⟩)], Ex.n 1, Ex.n 0, Ex.n 0, Ex.n 0, Ex.n 1, Ex.n 0⟩,
+   by decide⟩
+
+/-! ## paths -/
+
+/-- Clause "causes no rasteriser activity at all", per call: while disabled, every drawing call
+    (including `ClosePathEndPath`) returns without touching the rasteriser or the Renderer, for any arc
+    implementation. -/
+theorem disabled_silent (arc : ArcFn α β) (posInf : α) (z : Renderer α β) (c : Call α)
+    (hd : z.disabled = true) (hc : isSegment c = true ∨ c = .closeEnd) :
+    z.step arc posInf c = (z, []) := Lemmas.RendererVM.disabled_silent arc posInf z c hd hc
+example : ({ Ex.z24 with disabled := true } : Renderer Num.F32 Num.F64).disabled = true ∧
+    isSegment (.arc true (Ex.n 1) (Ex.n 1) (Ex.n 0) true true (Ex.n 1) (Ex.n 1) : Call Num.F32) = true :=
+  ⟨rfl, rfl⟩
+
+/-- … per path: a path for which the machine prescribes no paint makes no rasteriser call; afterwards
+    only `fill`/`disabled` differ, so the following styling calls and paths are processed as usual
+    ("the machine still leaves drawing mode"). -/
+theorem path_silent (arc : ArcFn α β) (posInf : α) (z : Renderer α β)
+    (adj : UInt8) (x y : α) (segs : List (Call α)) (hs : ∀ s ∈ segs, isSegment s = true)
+    (h : (absVM z).paintChoice z.r.dy adj = none) :
+    z.run arc posInf (.startPath adj x y :: (segs ++ [.closeEnd])) =
+      ({ z with fill := (choose z adj).1, disabled := true }, []) :=
+  Lemmas.RendererVM.path_silent arc posInf z adj x y segs hs h
+set_option maxRecDepth 100000 in
+example : (absVM { Ex.z24 with lod0 := Ex.n 32 }).paintChoice ({ Ex.z24 with lod0 := Ex.n 32 } : Renderer Num.F32 Num.F64).r.dy 0 = none ∧
+    ∀ s ∈ [(.d2 .L (Ex.n 1) (Ex.n 1) : Call Num.F32), .d1 .H (Ex.n 3)], isSegment s = true := by
+  refine ⟨?_, by decide⟩
+  rw [← Option.isNone_iff_eq_none]
+  decide +kernel
+
+/-- An enabled path: `Reset(w,h)`, `MoveTo`, path segments only, `ClosePath`, and exactly one `Draw` —
+    last, into the Renderer's rectangle, with the paint the machine prescribed at `StartPath`; the
+    registers are unchanged. -/
+theorem path_drawn_once (arc : ArcFn α β) (hArc : ArcPure arc) (posInf : α) (z : Renderer α β)
+    (adj : UInt8) (x y : α) (segs : List (Call α)) (hs : ∀ s ∈ segs, isSegment s = true)
+    (p : PaintSpec α) (h : (absVM z).paintChoice z.r.dy adj = some p) :
+    ∃ mid : List (RasterOp α β), (∀ op ∈ mid, isPathOp op = true) ∧
+      (z.run arc posInf (.startPath adj x y :: (segs ++ [.closeEnd]))).2 =
+        .reset z.r.dx z.r.dy :: .moveTo (z.absX x) (z.absY y) :: (mid ++ [.closePath, .draw z.r (realise z p)]) ∧
+      regs (z.run arc posInf (.startPath adj x y :: (segs ++ [.closeEnd]))).1 = regs z :=
+  Lemmas.RendererVM.path_drawn_once arc hArc posInf z adj x y segs hs p h
+/-- the arc hypothesis holds for the model of `AbsArcTo` -/
+example : ArcPure arcF32 := arcF32_pure
+example : ∀ s ∈ [(.d4 .S (Ex.n 1) (Ex.n 1) (Ex.n 2) (Ex.n 0) : Call Num.F32),
+    .arc true (Ex.n 1) (Ex.n 2) (Ex.n 0) false true (Ex.n 2) (Ex.n 2), .d2 .Y (Ex.n 0) (Ex.n 0)],
+    isSegment s = true := by decide
+set_option maxRecDepth 100000 in
+example : ((absVM Ex.z24).paintChoice Ex.z24.r.dy 0).isSome = true := by decide +kernel
+
+/-! ## headline -/
+
+/-- **Headline.**  For every program that respects the protocol (`Reset`, then register-setting calls
+    and paths `StartPath … ClosePathEndPath`), delivered to a Renderer in any state (any rectangle, any
+    history), with any arc implementation that only adds path segments: the `Draw` calls made on the
+    rasteriser are, in order, exactly the paints the specification's machine prescribes for the paths,
+    each drawn into the Renderer's rectangle. -/
+theorem render_refines_vm (arc : ArcFn α β) (hArc : ArcPure arc) (posInf : α) (z0 : Renderer α β)
+    (vb : ViewBox α) (pal : Palette) (body : List (Call α)) (hb : Body body) :
+    drawsOf (z0.run arc posInf (.reset vb pal :: body)).2 =
+      (VM.paints posInf z0.r.dy (VM.init posInf pal) body).map
+        (fun p => (z0.r, realise (z0.reset posInf vb pal) p)) :=
+  Lemmas.RendererVM.render_refines_vm arc hArc posInf z0 vb pal body hb
+/-- a body with a gradient path, a transparent path, a path outside the LOD range and a flat path
+    painted through palette index / register reference / blend: the machine prescribes
+    `[2-stop gradient, none, none, flat (alpha 0x40)]` -/
+example : Body Ex.body ∧
+    Ex.kinds (VM.choices Ex.posInf 24 (VM.init Ex.posInf defaultPalette) Ex.body) = [2, 0, 0, 1064] :=
+  ⟨Ex.body_ok, Ex.body_kinds⟩
+
+/-- Headline for a truncated graphic (the byte stream ends inside a path: `Reset`, a body, and a last
+    path that is started but never closed): the unfinished path is never drawn; the draws are those of
+    the body. -/
+theorem render_refines_vm_open (arc : ArcFn α β) (hArc : ArcPure arc) (posInf : α) (z0 : Renderer α β)
+    (vb : ViewBox α) (pal : Palette) (body : List (Call α)) (hb : Body body)
+    (adj : UInt8) (x y : α) (segs : List (Call α)) (hs : ∀ s ∈ segs, isSegment s = true) :
+    drawsOf (z0.run arc posInf (.reset vb pal :: (body ++ .startPath adj x y :: segs))).2 =
+      (VM.paints posInf z0.r.dy (VM.init posInf pal) body).map
+        (fun p => (z0.r, realise (z0.reset posInf vb pal) p)) :=
+  Lemmas.RendererVM.render_refines_vm_open arc hArc posInf z0 vb pal body hb adj x y segs hs
+example : ArcPure arcF32 ∧ Body Ex.body ∧
+    ∀ s ∈ [(.d2 .l (Ex.n 1) (Ex.n 1) : Call Num.F32), .d6 .c (Ex.n 1) (Ex.n 1) (Ex.n 2) (Ex.n 2) (Ex.n 3) (Ex.n 0)],
+      isSegment s = true := ⟨arcF32_pure, Ex.body_ok, by decide⟩
+
+/-- **Headline, complete form.**  The whole rasteriser traffic is the concatenation, over the paths
+    for which the machine prescribes a paint, of blocks
+    `Reset(w,h), MoveTo, segments…, ClosePath, Draw(r, paint)`; paths for which it prescribes none
+    contribute nothing at all (see `Blocks`). -/
+theorem render_blocks (arc : ArcFn α β) (hArc : ArcPure arc) (posInf : α) (z0 : Renderer α β)
+    (vb : ViewBox α) (pal : Palette) (body : List (Call α)) (hb : Body body) :
+    Blocks z0.r.dx z0.r.dy z0.r (realise (z0.reset posInf vb pal))
+      (VM.choices posInf z0.r.dy (VM.init posInf pal) body)
+      (z0.run arc posInf (.reset vb pal :: body)).2 :=
+  Lemmas.RendererVM.render_blocks arc hArc posInf z0 vb pal body hb
+example : ArcPure arcF32 ∧ Body Ex.body := ⟨arcF32_pure, Ex.body_ok⟩
+
+/-- Corollary: a program all of whose paths are prescribed no paint never calls the rasteriser. -/
+theorem all_none_silent (arc : ArcFn α β) (hArc : ArcPure arc) (posInf : α) (z0 : Renderer α β)
+    (vb : ViewBox α) (pal : Palette) (body : List (Call α)) (hb : Body body)
+    (hn : ∀ c ∈ VM.choices posInf z0.r.dy (VM.init posInf pal) body, c = none) :
+    (z0.run arc posInf (.reset vb pal :: body)).2 = [] :=
+  blocks_all_none (render_blocks arc hArc posInf z0 vb pal body hb) hn
+set_option maxRecDepth 100000 in
+/-- e.g. at height 24 with `LOD = [32, 64)` -/
+example : Body [(.setLOD (Ex.n 32) (Ex.n 64) : Call Num.F32), .startPath 0 (Ex.n 0) (Ex.n 0), .closeEnd] ∧
+    ∀ c ∈ VM.choices Ex.posInf 24 (VM.init Ex.posInf defaultPalette)
+      [(.setLOD (Ex.n 32) (Ex.n 64) : Call Num.F32), .startPath 0 (Ex.n 0) (Ex.n 0), .closeEnd], c = none := by
+  refine ⟨.styling _ _ rfl (.path 0 _ _ [] _ (by simp) .nil), ?_⟩
+  have h : (VM.choices Ex.posInf 24 (VM.init Ex.posInf defaultPalette)
+      [(.setLOD (Ex.n 32) (Ex.n 64) : Call Num.F32), .startPath 0 (Ex.n 0) (Ex.n 0), .closeEnd]).all
+        Option.isNone = true := by decide +kernel
+  intro c hc
+  exact Option.isNone_iff_eq_none.mp (List.all_eq_true.mp h c hc)
+
+/-!
+## Not proved here
+
+* The protocol predicate `Body` is an assumption on the call sequence.  That `decode.Decode` delivers
+  only `Reset :: body` or `Reset :: body ++ StartPath :: segments` (stream ending inside a path; also
+  when a drawing instruction fails to decode) with `Body body` follows from the decoder's mode
+  functions (`Dec.decodeStyling` / `Dec.decodeDrawing`) and belongs to the decoder properties
+  (`Ivg/Lemmas/Decoder*.lean`: `StepSpec`, `run_no_reset`); both shapes are covered here
+  (`render_refines_vm`, `render_refines_vm_open`), and `styling_refines`, `startPath_paint`,
+  `disabled_silent`, `every_call_refines` apply to arbitrary call sequences call by call.
+* "the machine still leaves drawing mode": the mode is decoder state (independent of the
+  Destination); on the Renderer side this is `path_silent` (only `fill`/`disabled` change) together
+  with `render_refines_vm` for the calls that follow.
+* The pixel-space matrix of a gradient (`pix2Grad`) is taken from the code; its agreement with the
+  specification's appendix is not part of C04.
+* The stop-colour condition follows the property text ("non-premultiplied"); the specification says
+  "a stop colour that is itself a gradient", which is implied (every gradient value is
+  non-premultiplied).
+-/
+
 end Ivg.Props.C04
-#obligations C04 [Ivg.Gen.Tie.drawOps_tie, Ivg.Gen.Tie.magic_tie, Ivg.Gen.Tie.errorStrings_tie]
+
+#obligations C04 [
+  Ivg.Props.C04.reset_initialises, Ivg.Props.C04.register_index, Ivg.Props.C04.styling_refines,
+  Ivg.Props.C04.every_call_refines, Ivg.Props.C04.colour_resolution, Ivg.Props.C04.colour1_table,
+  Ivg.Props.C04.selectors_six_bit, Ivg.Props.C04.startPath_paint, Ivg.Props.C04.startPath_enabled_iff,
+  Ivg.Props.C04.no_paint_causes, Ivg.Props.C04.gradient_validity, Ivg.Props.C04.gradient_paint,
+  Ivg.Props.C04.disabled_silent, Ivg.Props.C04.path_silent, Ivg.Props.C04.path_drawn_once,
+  Ivg.Props.C04.render_refines_vm, Ivg.Props.C04.render_refines_vm_open, Ivg.Props.C04.render_blocks, Ivg.Props.C04.all_none_silent,
+  Ivg.Lemmas.RendererVM.arcF32_pure,
+  Ivg.Gen.Tie.renderer_fields_tie, Ivg.Gen.Tie.dc1Table_tie]
